@@ -169,8 +169,8 @@ def run(ctx):
         ok = len(m2s) == 1 and not m2s[0].guards
         if ok:
             v = m2s[0].value
-            ok = isinstance(v, ast.Subscript) and isinstance(v.value, ast.Call) and norm(v.value.func) == "Array" and \
-                "getattr(getattr(m, channel), name) for m in masters" in norm(v.value)
+            ok = isinstance(v, ast.Subscript) and isinstance(v.value, ast.Call) and norm(v.value.func) == "Array" and len(v.value.args) == 1 and \
+                q.elementwise(v.value.args[0]) == ("getattr(getattr(@, channel), name)", "masters")
             r = _rr_of_channel(norm(v.slice)) if ok else None
             ok = ok and r is not None and r[0] == {"aw", "w", "b"} and r[1] == "self.rr_write" and r[2] == "self.rr_read" and \
                 norm(v.slice).endswith(".grant")
@@ -299,25 +299,45 @@ def run(ctx):
             ctx.ob("L7", rel, cls, f"{kind}: RESPOND entered only from WAIT on expiry", ok,
                    "" if ok else f"{[(t.src, short(B.show(q.Inliner(fx, t).gformula(t)), 80)) for t in tr]}", tr[0].node if tr else 0)
 
-    # ================================================================ L4
+    # ================================================================ L4 (connect_axi and axi_layout_flat by value: interpreted on model
+    # interfaces whose channels record what is connected to what / carry a small layout)
+    from .. import pyconst
+    from ..pyconst import NS, Native
     cm = ctx.mod(AC)
+    consts = dict(pyconst.module_consts(cm.tree))
+    consts.update({"DIR_M_TO_S": "M2S", "DIR_S_TO_M": "S2M"})
+    funcs = {f.name: f for f in cm.tree.body if isinstance(f, ast.FunctionDef)}
+    CH = ("aw", "w", "b", "ar", "r")
+
+    def side(tag):
+        o = NS()
+        for ch in CH:
+            o[ch] = NS(__id__=(tag, ch), connect=Native(lambda other, keep=None, omit=None, me=(tag, ch): [(me, other["__id__"])]),
+                       layout=[("valid", 1, "M2S"), ("ready", 1, "S2M"), ("payload", [("data", 32, "M2S"), ("strb", 4, "M2S")]), ("param", [("id", 2, "M2S")])])
+        return o
     ca = cm.func("connect_axi")
-    tab = None
-    for n in ast.walk(ca):
-        if isinstance(n, ast.Assign) and norm(n.targets[0]) == "channel_modes":
-            tab = const_fold(n.value)
-    ok = tab == {"aw": "master", "w": "master", "b": "slave", "ar": "master", "r": "slave"}
-    ctx.ob("L4", AC, "connect_axi", "slave-driven channels = {b, r}", ok, "" if ok else f"{tab}", ca)
+    try:
+        got = pyconst.call(ca, {"master": side("m"), "slave": side("s")}, consts=consts, funcs=funcs)
+    except pyconst.Unknowable as ex:
+        ctx.need(False, f"connect_axi cannot be interpreted on model interfaces ({ex})")
+    want = {(("s", ch), ("m", ch)) if ch in ("b", "r") else (("m", ch), ("s", ch)) for ch in CH}
+    have = set(got[1]) if got[0] == "return" and isinstance(got[1], list) else None
+    ok = have == want and len(got[1]) == 5
+    ctx.ob("L4", AC, "connect_axi", "slave-driven channels = {b, r}", ok,
+           "" if ok else f"connections made: {sorted(have) if have is not None else got}: expected master->slave for aw, w, ar and slave->master for b, r, "
+                         f"each channel once", ca)
     lf = cm.func("axi_layout_flat")
-    gd = [n for n in ast.walk(lf) if isinstance(n, ast.FunctionDef) and n.name == "get_dir"]
-    ok = False
-    if gd:
-        tests = [norm(n.test) for n in ast.walk(gd[0]) if isinstance(n, ast.If)]
-        ok = tests == ["channel in ['b', 'r']"]
-        chs = [const_fold(n.iter) for n in ast.walk(lf) if isinstance(n, ast.For) and isinstance(n.iter, ast.List) and
-               all(isinstance(e, ast.Constant) for e in n.iter.elts)]
-        ok = ok and ["aw", "w", "b", "ar", "r"] in chs
-    ctx.ob("L4", AC, "axi_layout_flat", "directions reversed for {b, r} over the five channels", ok, "" if ok else "get_dir / channel list changed", lf)
+    try:
+        got = pyconst.call(lf, {"axi": side("m")}, consts=consts, funcs=funcs)
+    except pyconst.Unknowable as ex:
+        ctx.need(False, f"axi_layout_flat cannot be interpreted on a model interface ({ex})")
+    flip = {"M2S": "S2M", "S2M": "M2S"}
+    want = [(ch, nm, flip[d] if ch in ("b", "r") else d) for ch in CH
+            for nm, d in (("valid", "M2S"), ("ready", "S2M"), ("data", "M2S"), ("strb", "M2S"), ("id", "M2S"))]
+    have = list(got[1]) if got[0] == "return" else None
+    ok = have is not None and sorted(have) == sorted(want)
+    ctx.ob("L4", AC, "axi_layout_flat", "directions reversed for {b, r} over the five channels", ok,
+           "" if ok else f"flat layout differs: {sorted(set(have or []) ^ set(want))[:4]}", lf)
     cp = cm.func("connect_to_pads")
     swapped = set()
     for n in ast.walk(cp):
